@@ -528,3 +528,75 @@ def thousand_tasks_family() -> List[dict]:
                     pool["ecb"] = {"async": False}
                 cases.append({"pools": [pool], "steps": steps})
     return cases
+
+
+def flush_vs_spawner_family(thin: int = 1) -> List[dict]:
+    """flush() / gather_and_close() waits for a task that sits in a slow end callback; its slot is free already, so a waiting spawner of
+    another group is handed room meanwhile - and is cancelled (by group / globally) before or after it made use of it:
+
+        spawn A (size-filling, slow end callback) ; spawn B (waits for room) ; tick 2 ; [flush] ; gate (A's workers return) ; tick a ;
+        [flush] ; tick b ; cancel_group(B) / cancel_all ; tick c ; gate k ; settle ; drain (+ capacity probe at the end)"""
+    cases: List[dict] = []
+    slow = {"async": True, "wait": True}
+    for size in (1, 2):
+        for kb, extra in (("apply", {"num": 3}), ("map", {"n": 3, "nc": 2})):
+            for op in ("flush", "close"):
+                for early in (True, False):
+                    for canc in ("group", "all"):
+                        for a, b, c in itertools.product(range(3), range(3), range(2)):
+                            for k in range(2):
+                                A = {"op": "spawn", "pool": 0, "kind": "apply", "num": size, "place": "inline", "ecb": dict(slow),
+                                     "worker": {"script": [["wait"]], "fname": "x"}}
+                                B = {"op": "spawn", "pool": 0, "kind": kb, "place": "inline", "worker": {"script": [["wait"]], "fname": "w"}, **extra}
+                                fl = {"op": op, "pool": 0, "place": "eager", "re": True}
+                                steps = [A, B, {"op": "tick", "k": 2}]
+                                if early:
+                                    steps.append(dict(fl))
+                                steps.append({"op": "gate", "k": 0, "place": "inline"})
+                                if size == 2:
+                                    steps.append({"op": "gate", "k": 0, "place": "inline"})
+                                _ticks(steps, a)
+                                if not early:
+                                    steps.append(dict(fl))
+                                _ticks(steps, b)
+                                steps.append({"op": "cancel_group", "pool": 0, "ref": ["live", 1], "place": "inline"} if canc == "group" else
+                                             {"op": "cancel_all", "pool": 0, "place": "inline"})
+                                _ticks(steps, c)
+                                steps.append({"op": "gate", "k": k, "place": "inline"})
+                                steps.append({"op": "settle"})
+                                steps.extend(copy.deepcopy(DRAIN))
+                                cases.append({"pools": [{"cls": "TaskPool", "size": size}], "steps": steps})
+    return cases[::thin] if thin > 1 else cases
+
+
+def double_cancel_family(thin: int = 1) -> List[dict]:
+    """A task cancelled by id sits in its slow cancel callback when its group / everything is cancelled as well (or it is named again),
+    then the pool is flushed or closed:
+
+        spawn (slow cancel callback) ; tick 3 ; cancel(id) ; tick a ; cancel_group / cancel_all / cancel(ids again) ; tick b ;
+        flush / gather_and_close ; gate k ; settle ; drain"""
+    cases: List[dict] = []
+    slow = {"async": True, "wait": True}
+    for size in (2, None):
+        for kind, extra in (("apply", {"num": 3}), ("map", {"n": 4, "nc": 2})):
+            for second in ("group", "all", "ids"):
+                for fin, re_ in (("close", False), ("close", True), ("flush", False)):
+                    for a, b in itertools.product(range(3), range(3)):
+                        for k in range(3):
+                            sp = {"op": "spawn", "pool": 0, "kind": kind, "place": "inline", "ccb": dict(slow), "ecb": {"async": False},
+                                  "worker": {"script": [["wait"]], "fname": "w"}, **extra}
+                            steps = [sp, {"op": "tick", "k": 3}, {"op": "cancel", "pool": 0, "refs": [["live", 0]], "place": "inline"}]
+                            _ticks(steps, a)
+                            steps.append({"op": "cancel_group", "pool": 0, "ref": ["live", 0], "place": "inline"} if second == "group" else
+                                         {"op": "cancel_all", "pool": 0, "place": "inline"} if second == "all" else
+                                         {"op": "cancel", "pool": 0, "refs": [["incb", 0], ["live", 0]], "place": "inline"})
+                            _ticks(steps, b)
+                            f = {"op": fin, "pool": 0, "place": "eager"}
+                            if re_:
+                                f["re"] = True
+                            steps.append(f)
+                            steps.append({"op": "gate", "k": k, "place": "inline"})
+                            steps.append({"op": "settle"})
+                            steps.extend(copy.deepcopy(DRAIN))
+                            cases.append({"pools": [{"cls": "TaskPool", "size": size}], "steps": steps})
+    return cases[::thin] if thin > 1 else cases
